@@ -56,7 +56,7 @@ def kw_for(rng, method, allow_bad=True):
     return kw
 
 
-CONTENT_CLASSES = ["plain", "multiline", "crlf", "cr", "bom", "nofinalnl", "empty", "multibyte", "large"]
+CONTENT_CLASSES = ["plain", "multiline", "crlf", "cr", "bom", "nofinalnl", "empty", "multibyte", "large", "not_utf8"]
 
 
 def make_content(rng, names, cls, tier):
@@ -77,13 +77,20 @@ def make_content(rng, names, cls, tier):
         unit = t + "\n" + "".join(rng.choice(["é", "λ", "日本", "😀", "ab1 ", "k=2 "]) for _ in range(20))
         target = rng.choice([9000, 17000]) if tier == "thorough" else rng.choice([600, 9000])
         t = (unit * (target // max(1, len(unit)) + 1))[:target]
-    return t.encode("utf-8", "ignore") if False else t.encode("utf-8")
+    if cls == "not_utf8":
+        # not a UTF-8 file: the property promises nothing for calls on it, but they must not change what
+        # later calls on proper UTF-8 files return
+        return (t + " caf\u00e9 na\u00efve 12 \u00fc\n").encode("latin-1", "replace")
+    return t.encode("utf-8")
 
 
 def same_length_variant(rng, data):
     """A different content with the same number of bytes (and characters): ASCII letters and digits are
     rotated, so matches move/change while size-based staleness checks see nothing."""
-    text = data.decode("utf-8")
+    try:
+        text = data.decode("utf-8")
+    except UnicodeDecodeError:
+        return data[::-1]
     k = rng.randint(1, 7)
     out = []
     for ch in text:
@@ -260,7 +267,7 @@ def execute(plan, inst, keep_log=False):
             pats[pid] = None
             log.add("build_failed", pid, type(e).__name__)
     handles = {}
-    stats = {"calls": 0, "iter_steps": 0, "lazy_deferred": 0, "version_changed_before_read": 0,
+    stats = {"non_utf8_calls": 0, "calls": 0, "iter_steps": 0, "lazy_deferred": 0, "version_changed_before_read": 0,
              "inflight_interleavings": 0, "seam_bypassed": 0, "bad_size_checked": 0, "windows_checked": 0,
              "hard_fault_raised": 0, "hard_fault_returned": 0, "handles_left_open": 0}
     cover = set()
@@ -290,6 +297,14 @@ def execute(plan, inst, keep_log=False):
             pre_mod.open = saved["pre"]
         builtins.open, io.open = saved["b"], saved["io"]
         os.stat, os.lstat = saved["stat"], saved["lstat"]
+
+    def valid_utf8(path, versions):
+        for v in versions:
+            try:
+                fs.files[path][v].decode("utf-8")
+            except UnicodeDecodeError:
+                return False
+        return True
 
     def texts_for(path, versions):
         out = []
@@ -323,6 +338,10 @@ def execute(plan, inst, keep_log=False):
             uninstall()
             fs.disarm()
         hard = fs.hard_fault
+        if not valid_utf8(path, [fs.current[path]]):
+            stats["non_utf8_calls"] += 1
+            log.add("call", method, op["pattern"], path, kw, "non-utf8 file: outcome not judged")
+            return
         texts = texts_for(path, [fs.current[path]])
         expected = [outcome(lambda t=t: m(t, **kw)) for t in texts]
         cov(method, path, fired_before)
@@ -403,9 +422,12 @@ def execute(plan, inst, keep_log=False):
         if h.exc and h.exc[1] and h.hard:
             stats["hard_fault_raised"] += 1
             return
-        if h.exc and h.exc[1] and not h.hard:
-            raise HarnessError("%s raised %s with no fault armed" % (h.method, h.exc[0]))
         versions = history[h.path][h.hist_idx:]
+        if h.exc and h.exc[1] and not h.hard and valid_utf8(h.path, versions):
+            raise HarnessError("%s raised %s with no fault armed" % (h.method, h.exc[0]))
+        if not valid_utf8(h.path, versions):
+            stats["non_utf8_calls"] += 1
+            return
         texts = texts_for(h.path, versions)
         cands = [drain(lambda t=t: m(t, **h.kw)) for t in texts]
         ok = False
@@ -551,7 +573,10 @@ def shrink_candidates(plan):
         yield q
     for p in sorted(files):
         for vi, hexv in enumerate(files[p]):
-            text = bytes.fromhex(hexv).decode("utf-8")
+            try:
+                text = bytes.fromhex(hexv).decode("utf-8")
+            except UnicodeDecodeError:
+                continue
             n = len(text)
             chunk = max(1, n // 2)
             while chunk >= 1 and n > 0:
@@ -593,7 +618,7 @@ EVIDENCE = {
             "boundary fell inside a multi-byte UTF-8 sequence, or a file version changed between iterator creation and "
             "its first read.",
     "measure": "(method, content class of the file, fault kinds that fired during the call, buffer-size class)",
-    "probes": ["cache_ops", "lazy_deferred", "version_changed_before_read", "inflight_interleavings", "mb_boundary",
+    "probes": ["non_utf8_calls", "cache_ops", "lazy_deferred", "version_changed_before_read", "inflight_interleavings", "mb_boundary",
                "windows_checked", "bad_size_checked", "hard_fault_raised"],
     "fault_kinds": ["short_read", "split_utf8", "EINTR", "EIO", "ENOENT", "EACCES", "EISDIR"],
     "components": {
@@ -609,5 +634,6 @@ EVIDENCE = {
         "under EIO/ENOENT/EACCES/EISDIR a call may raise OSError; a returned value must still equal the fault-free value",
         "generators may read the file at creation or at first next(); any version current in between is accepted",
         "file access other than open()/io.open()/os.stat on the path escapes fault injection (reported as harness error)",
+        "calls on a file that is not valid UTF-8 are executed but not judged (the property is about UTF-8 files); calls after them are",
     ],
 }
